@@ -9,16 +9,17 @@ fn k_model_memory_sizes_total() {
     let a: [u16; 11] = kani::any();
     let m = ModelMemorySizes::<u32> { stack_size: a[0] as u32, runtime_size: a[1] as u32, vertex_buffer_size: [a[2] as u32, a[3] as u32, a[4] as u32],
         edge_geometry_vertex_buffer_size: [a[5] as u32, a[6] as u32, a[7] as u32], index_buffer_size: [a[8] as u32, a[9] as u32, a[10] as u32] };
-    let mut s: u32 = 0;
+    // (summed in the order stack, runtime, then per LOD vertex, edge, index - adder re-association is SAT-hard)
+    let mut s: u32 = a[0] as u32 + a[1] as u32;
     let mut i = 0;
-    while i < 11 { s += a[i] as u32; i += 1; }
+    while i < 3 { s += a[2 + i] as u32; s += a[5 + i] as u32; s += a[8 + i] as u32; i += 1; }
     assert!(m.total() == s, "sum of the 11 fields");
     let b: [u8; 11] = kani::any();
     let m16 = ModelMemorySizes::<u16> { stack_size: b[0] as u16, runtime_size: b[1] as u16, vertex_buffer_size: [b[2] as u16, b[3] as u16, b[4] as u16],
         edge_geometry_vertex_buffer_size: [b[5] as u16, b[6] as u16, b[7] as u16], index_buffer_size: [b[8] as u16, b[9] as u16, b[10] as u16] };
-    let mut s16: u16 = 0;
+    let mut s16: u16 = b[0] as u16 + b[1] as u16;
     let mut i = 0;
-    while i < 11 { s16 += b[i] as u16; i += 1; }
+    while i < 3 { s16 += b[2 + i] as u16; s16 += b[5 + i] as u16; s16 += b[8 + i] as u16; i += 1; }
     assert!(m16.total() == s16, "sum of the 11 fields (u16 table)");
     kani::cover!(true, "reachable");
 }
